@@ -1365,57 +1365,90 @@ func (e *Engine) doCall(c *config, call ssa.CallInstruction) []*config {
 			worlds = append(worlds, world{cur, make([]Abs, nres)})
 		}
 		for _, f := range targets {
-			args := call.Common().Args
-			pf := make([]Abs, len(f.Params)+len(f.FreeVars))
-			// closures bound via MakeClosure: params align with args
-			for i := range f.Params {
-				if i < len(args) {
-					pf[i] = e.eval(cur, args[i])
-				}
-			}
-			// captured read-only cells carry their facts into the closure
-			if mc, ok := call.Common().Value.(*ssa.MakeClosure); ok && mc.Fn == f {
-				for i, b := range mc.Bindings {
-					if al, ok := b.(*ssa.Alloc); ok && i < len(f.FreeVars) && simpleCell(al) {
-						if id, ok := e.ids[al]; ok {
-							pf[len(f.Params)+i] = cur.get(id)
+			// a boolean argument that the rule tracks as a flag and whose value is not known yet is
+			// decided before the call, so that what the callee does under it stays correlated with
+			// what the caller does under it afterwards
+			entries := []*config{cur}
+			if e.R.Flag != nil {
+				for i := range f.Params {
+					args := call.Common().Args
+					if i >= len(args) || args[i].Type().String() != "bool" {
+						continue
+					}
+					if _, ok := e.R.Flag(args[i]); !ok {
+						continue
+					}
+					var next []*config
+					for _, c0 := range entries {
+						if e.eval(c0, args[i]) != Unknown {
+							next = append(next, c0)
+							continue
+						}
+						for _, k := range []Abs{NonZero, Zero} {
+							n := c0.clone()
+							if e.assume(n, args[i], k, 0) {
+								e.id(args[i])
+								e.setFact(n, args[i], k)
+								next = append(next, n)
+							}
 						}
 					}
+					entries = next
 				}
 			}
-			all := true
-			for _, a := range pf {
-				if a != Unknown {
-					all = false
+			for _, cur := range entries {
+				args := call.Common().Args
+				pf := make([]Abs, len(f.Params)+len(f.FreeVars))
+				// closures bound via MakeClosure: params align with args
+				for i := range f.Params {
+					if i < len(args) {
+						pf[i] = e.eval(cur, args[i])
+					}
 				}
-			}
-			if all {
-				pf = nil
-			}
-			sub := e.summarise(f, cur.s, pf, cur, false)
-			for o, rep := range sub.outs {
-				n := cur.clone()
-				n.s = o.S
-				_ = rep
-				if len(targets) > 1 || o.S != cur.s {
-					n.note = fmt.Sprintf("%s: call %s → state %x/%x", e.PosStr(instr.Pos()), f.Name(), o.S.A, o.S.F)
-				}
-				rets := DecodeRets(o.Rets)
-				if len(rets) != nres {
-					rets = make([]Abs, nres)
-				}
-				if mc, ok := call.Common().Value.(*ssa.MakeClosure); ok && mc.Fn == f && o.Cells != "" {
-					// the closure stored to captured variables: their content is what the closure left
-					st := storedFreeVars(f)
-					cells := DecodeRets(o.Cells)
+				// captured read-only cells carry their facts into the closure
+				if mc, ok := call.Common().Value.(*ssa.MakeClosure); ok && mc.Fn == f {
 					for i, b := range mc.Bindings {
-						if al, ok := b.(*ssa.Alloc); ok && i < len(st) && st[i] && i < len(cells) && simpleCell(al) {
-							e.id(al)
-							e.setFact(n, al, cells[i])
+						if al, ok := b.(*ssa.Alloc); ok && i < len(f.FreeVars) && simpleCell(al) {
+							if id, ok := e.ids[al]; ok {
+								pf[len(f.Params)+i] = cur.get(id)
+							}
 						}
 					}
 				}
-				worlds = append(worlds, world{n, rets})
+				all := true
+				for _, a := range pf {
+					if a != Unknown {
+						all = false
+					}
+				}
+				if all {
+					pf = nil
+				}
+				sub := e.summarise(f, cur.s, pf, cur, false)
+				for o, rep := range sub.outs {
+					n := cur.clone()
+					n.s = o.S
+					_ = rep
+					if len(targets) > 1 || o.S != cur.s {
+						n.note = fmt.Sprintf("%s: call %s → state %x/%x", e.PosStr(instr.Pos()), f.Name(), o.S.A, o.S.F)
+					}
+					rets := DecodeRets(o.Rets)
+					if len(rets) != nres {
+						rets = make([]Abs, nres)
+					}
+					if mc, ok := call.Common().Value.(*ssa.MakeClosure); ok && mc.Fn == f && o.Cells != "" {
+						// the closure stored to captured variables: their content is what the closure left
+						st := storedFreeVars(f)
+						cells := DecodeRets(o.Cells)
+						for i, b := range mc.Bindings {
+							if al, ok := b.(*ssa.Alloc); ok && i < len(st) && st[i] && i < len(cells) && simpleCell(al) {
+								e.id(al)
+								e.setFact(n, al, cells[i])
+							}
+						}
+					}
+					worlds = append(worlds, world{n, rets})
+				}
 			}
 		}
 	}
